@@ -809,6 +809,43 @@ func c02Lookup(a *Anchors, r *core.Report, pushes []mailboxPush) {
 				return
 			}
 			_, fls, complete := boolEdges(okVal)
+			if !complete {
+				// a fallback chain: "look in table A, if it is not there look in table B" merges the
+				// two results; the failure edge is the one on which the merged result is false.
+				// Judged once, at the last lookup of the chain.
+				if refs := okVal.Referrers(); refs != nil {
+					for _, rf := range *refs {
+						ph, isPhi := rf.(*ssa.Phi)
+						if !isPhi {
+							continue
+						}
+						last := false
+						allLoads := true
+						for i, e := range ph.Edges {
+							ex, isEx := e.(*ssa.Extract)
+							if !isEx {
+								allLoads = false
+								continue
+							}
+							ld, isCall := ex.Tuple.(*ssa.Call)
+							if !isCall || !isSyncMapLoad(ld.Common()) {
+								allLoads = false
+							}
+							if e == okVal && i == len(ph.Edges)-1 {
+								last = true
+							}
+						}
+						if allLoads && last {
+							if _, f2, c2 := boolEdges(ph); c2 {
+								fls, complete = f2, true
+								what = "chained " + what
+							}
+						} else if allLoads {
+							return
+						}
+					}
+				}
+			}
 			if !complete || len(fls) == 0 {
 				return
 			}
